@@ -175,4 +175,8 @@
 #define os_atomic_rmw_loop_give_up(expr) \
 		os_atomic_rmw_loop_give_up_with_fence(relaxed, expr)
 
+#if DISPATCH_VERIF
+#include "verif_atomic.h"
+#endif
+
 #endif // __DISPATCH_SHIMS_ATOMIC__
